@@ -62,6 +62,8 @@ func structPayload(v interface{}) ([]byte, error) {
 			switch v := field.Interface().(type) {
 			case uint8:
 				wr.writeByte(tag, v)
+			case int8:
+				wr.writeByte(tag, uint8(v))
 			case []byte:
 				wr.writeBytes(tag, v)
 			case string:
